@@ -43,7 +43,7 @@ def judge_msg_outcome(out, consumer="loads"):
     if out.kind == "budget":
         return [{"oracle": "C07.loads.terminates",
                  "detail": f"{consumer} did not terminate within the step budget ({out.steps} lines; last at {out.where})",
-                 "sig": f"C07.loads.terminates|{(out.where or '').split(':')[0]}"}]
+                 "sig": f"C07.loads.terminates|{(out.where or '').split(':')[0].split(' ')[0]}"}]
     return []
 
 
@@ -109,6 +109,7 @@ def run_msg_base(seed_i, tier, part, directed=True):
     if base["hex_bitmap"]:
         c["probe:hex_bitmap_path"] += 1
     part["runs"] += 1
+    hangs = 0
     h = hashlib.sha256(canon(base).encode())
     for fl in decfam.plan_message_faults(base, clean, rd, tier, rng, directed=directed):
         b = apply_faults(clean, fl)
@@ -116,6 +117,16 @@ def run_msg_base(seed_i, tier, part, directed=True):
         _, out, _, _, _ = corrupt.run_message(scn, b)
         _count(part, out, faults.fault_class(fl), b != clean, b, "loads")
         h.update(f"{out.kind},{out.exc_type},{out.steps};".encode())
+        if out.kind == "budget":
+            hangs += 1
+            if hangs >= 3:
+                # every further case of this base would burn a whole budget: enough evidence, move on
+                c["probe:base_abandoned_after_repeated_nontermination"] += 1
+                for v in judge_msg_outcome(out):
+                    if sum(1 for x in part["fails"] if x["sig"] == v["sig"]) < 1 and len(part["fails"]) < 12:
+                        v["scenario"] = scn
+                        part["fails"].append(v)
+                break
         for v in judge_msg_outcome(out):
             if sum(1 for x in part["fails"] if x["sig"] == v["sig"]) < 1 and len(part["fails"]) < 12:
                 v["scenario"] = scn
@@ -182,7 +193,7 @@ def file_fault_plans(base, image, stored, tier, rng):
             for v in vals:
                 out.append([{"kind": "substitute", "off": to_file(o + d), "val": v, "cls": "vbs_length_byte"}])
     for o in offs[:-1]:
-        for big in (6001, 6000, 65536, 0x7FFFFFFF, 0xFFFFFFFF):
+        for big in (6001, 6000, 65536, 0x7FFFFFFF, 0xFFFFFFFF, 0x40404040, 0x20202020, 0x80000000):
             out.append([{"kind": "substitute", "off": to_file(o + i), "val": big.to_bytes(4, "big")[i], "cls": "oversize_length"} for i in range(4)])
     for _ in range(30 if tier == "quick" else 150):
         out.append(faults.random_faults(rng, len(image)))
@@ -224,7 +235,11 @@ def run_file_base(seed_i, tier, part):
         for fl in rng.sample(allf, min(len(allf), 12 if tier == "quick" else 60)):
             rec_plans.append([{"record": k + 1, "faults": fl}])
     idx = 0
+    hangs = 0
     for fl in plans:
+        if hangs >= 3:
+            part["counters"]["probe:base_abandoned_after_repeated_nontermination"] += 1
+            break
         img = apply_faults(image, fl)
         idx += 1
         reader = readers[idx % len(readers)]
@@ -234,6 +249,7 @@ def run_file_base(seed_i, tier, part):
         if idx % 5 == 0:
             scn["pipe"] = True       # read through a non-seekable stream
         _, out = corrupt.run_file(scn, img)
+        hangs += 1 if out.kind == "budget" else 0
         _count(part, out, faults.fault_class(fl), img != image, img, reader)
         if out.kind == "rc" and "error" in (out.stdout or "").lower():
             part["counters"]["probe:tool_printed_diagnostics"] += 1
@@ -243,11 +259,14 @@ def run_file_base(seed_i, tier, part):
                 v["scenario"] = scn
                 part["fails"].append(v)
     for rf in rec_plans:
+        if hangs >= 3:
+            break
         idx += 1
         reader = readers[idx % len(readers)]
         scn = dict(base, rec_faults=rf, reader=reader)
         img, _ = corrupt.file_image(scn)
         _, out = corrupt.run_file(scn, img)
+        hangs += 1 if out.kind == "budget" else 0
         _count(part, out, "rec:" + faults.fault_class(rf[0]["faults"]), img != image, img, reader)
         if out.kind == "rc" and "error" in (out.stdout or "").lower():
             part["counters"]["probe:tool_printed_diagnostics"] += 1
